@@ -89,10 +89,96 @@ fn failing_unlinks_exec(k: &usize, ctx: &crate::explore::WorkerCtx) -> crate::ex
     })
 }
 
+/// Every source of process identifiers on one node: spawned processes and the reply-to identifiers of remote calls (read off
+/// the wire), interleaved; all pairwise distinct, all with the node's creation, references likewise.
+fn identifier_sources_exec(started: &bool, ctx: &crate::explore::WorkerCtx) -> crate::explore::ExecResult {
+    let started = *started;
+    crate::c17::run_rt(async move {
+        let mut res = crate::explore::ExecResult::default();
+        if !started {
+            // a node that was never started: its identifiers still agree on one creation
+            let node = Node::new("me@127.0.0.1", "c");
+            let mut crs: Vec<(String, u32)> = vec![("node.creation()".into(), node.creation())];
+            for i in 0..3 { if let Ok(p) = node.spawn(crate::procs::Rec { name: format!("p{}", i), log: Arc::new(Mutex::new(vec![])) }).await { crs.push((format!("pid of spawned process {}", i), p.creation)); } }
+            crs.push(("reference".into(), node.make_reference().creation));
+            // the same node connects out (allowed without start) and makes a remote call and a monitor: identifiers on the wire
+            if let Ok(mut nw) = crate::c17::node_world_opt(ctx, crate::c17::flags_default(), false).await {
+                nw.w.gates.set_active(&[]);
+                crs = vec![("node.creation()".into(), nw.node.creation()), ("reference".into(), nw.node.make_reference().creation)];
+                let n2 = nw.node.clone();
+                tokio::spawn(async move { let _ = n2.rpc_call_raw_with_timeout(crate::world::PEER_NAME, "m", "f", vec![], std::time::Duration::from_secs(5)).await; });
+                let no_probe = || 0u64;
+                nw.w.settle(&mut nw.peer, &no_probe).await;
+                let (frames, _) = nw.peer.dist_frames();
+                for f in &frames {
+                    if let Ok(m) = vcore::proto::read_pass_through(f) {
+                        if let (vcore::refval::RefVal::Tuple(c), Some(vcore::refval::RefVal::Tuple(p))) = (&m.control, &m.payload) {
+                            if c.len() == 4 && c[0] == vcore::refval::RefVal::int(6) { if let vcore::refval::RefVal::Pid { creation, .. } = &p[0] { crs.push(("reply-to pid of a remote call (on the wire)".into(), *creation)); } }
+                        }
+                    }
+                }
+            } else { res.violations.push(("an unstarted node could not connect out".into(), json!({}))); }
+            if crs.iter().any(|c| c.1 != crs[0].1) { res.violations.push(("identifiers of one node carry different creations".into(), json!({"node_started": false, "creations": crs}))); }
+            res.outcome = "unstarted".into();
+            return res;
+        }
+        let mut nw = match crate::c17::node_world(ctx, crate::c17::flags_default()).await {
+            Ok(x) => x,
+            Err(e) => { res.violations.push(("could not establish the connection under a conforming peer".into(), json!({"error": e}))); return res; }
+        };
+        nw.w.gates.set_active(&[]);
+        let mut pids: Vec<(String, u32, u32, u32)> = vec![];
+        let no_probe = || 0u64;
+        let mut seen_frames = 0usize;
+        for round in 0..4 {
+            for i in 0..3 {
+                let p = nw.node.spawn(crate::procs::Rec { name: format!("p{}_{}", round, i), log: Arc::new(Mutex::new(vec![])) }).await.unwrap();
+                pids.push((format!("spawn {}.{}", round, i), p.id, p.serial, p.creation));
+            }
+            for i in 0..3 {
+                let node = nw.node.clone();
+                tokio::spawn(async move { let _ = node.rpc_call_raw_with_timeout(crate::world::PEER_NAME, "m", "f", vec![erltf::OwnedTerm::Integer(i)], std::time::Duration::from_secs(5)).await; });
+                nw.w.settle(&mut nw.peer, &no_probe).await;
+                // in even rounds the peer answers each call at once (answered and timed-out calls both hand out identifiers)
+                if round % 2 == 0 {
+                    let (fr, _) = nw.peer.dist_frames();
+                    if let Some(Ok(m)) = fr.last().map(|f| vcore::proto::read_pass_through(f)) {
+                        if let Some(vcore::refval::RefVal::Tuple(p)) = &m.payload { let to = p[0].clone(); nw.peer.send(&crate::c17::reply_frame(&to, i)); nw.w.settle(&mut nw.peer, &no_probe).await; }
+                    }
+                }
+            }
+            let (frames, _) = nw.peer.dist_frames();
+            for f in frames.iter().skip(seen_frames) {
+                if let Ok(m) = vcore::proto::read_pass_through(f) {
+                    if let (vcore::refval::RefVal::Tuple(c), Some(vcore::refval::RefVal::Tuple(p))) = (&m.control, &m.payload) {
+                        if c.len() == 4 && c[0] == vcore::refval::RefVal::int(6) { if let vcore::refval::RefVal::Pid { id, serial, creation, .. } = &p[0] { pids.push((format!("rpc reply-to in round {}", round), *id, *serial, *creation)); } }
+                    }
+                }
+            }
+            seen_frames = frames.len();
+            tokio::time::advance(std::time::Duration::from_secs(6)).await; // the unanswered calls time out
+            nw.w.settle(&mut nw.peer, &no_probe).await;
+        }
+        let cr = nw.node.creation();
+        let mut keys: Vec<(u32, u32, u32)> = pids.iter().map(|p| (p.1, p.2, p.3)).collect();
+        keys.sort();
+        let dup = keys.windows(2).any(|w| w[0] == w[1]);
+        let r = nw.node.make_reference();
+        if dup || pids.iter().any(|p| p.3 != cr) || r.creation != cr || pids.len() != 24 {
+            res.violations.push(("process identifiers issued by one node (spawned processes, reply-to identifiers of remote calls) are not pairwise distinct or carry another creation".into(), json!({"node_creation": cr, "identifiers": pids.iter().map(|p| format!("{}: <{}.{}> creation {}", p.0, p.1, p.2, p.3)).collect::<Vec<_>>(), "reference_creation": r.creation})));
+        }
+        res.steps = 24;
+        res.outcome = format!("sources {}", pids.len());
+        res
+    })
+}
+
 pub fn run(rep: &Report) -> Value {
+    let src = [true, false];
+    let st_src = crate::explore::for_all(rep, "all sources of process identifiers", &src, |k, ctx| identifier_sources_exec(k, ctx));
     let ks: Vec<usize> = (0..=6).collect();
     let st_u = crate::explore::for_all(rep, "references around failing unlinks", &ks, |k, ctx| failing_unlinks_exec(k, ctx));
-    let mut total = st_u.executions;
+    let mut total = st_u.executions + st_src.executions;
     let mut outcomes: HashSet<String> = HashSet::new();
     for threads in [2usize, 3] {
         for sched in schedules(threads, 3) {
@@ -140,6 +226,6 @@ pub fn run(rep: &Report) -> Value {
         "samples": [{"threads": 2, "schedule": [0, 1, 0, 1, 1, 0]}, {"threads": 3, "schedule": [2, 0, 1, 1, 0, 2, 2, 1, 0]}],
         "exhaustive": true,
         "distinct_outcomes": outcomes.len(),
-        "rule": "all interleavings of the three fetch_add segments of Node::make_reference for 2 threads (20 schedules) and 3 threads (1680 schedules), enforced by a baton passed at the sync_point hooks; references must be pairwise distinct and carry the node's creation; plus one sequential history of 3 (40) million references, all distinct; plus seven executions in which 0..6 unlinks queued behind a held connection fail after drawing their ids, with references made before, between and after",
+        "rule": "all interleavings of the three fetch_add segments of Node::make_reference for 2 threads (20 schedules) and 3 threads (1680 schedules), enforced by a baton passed at the sync_point hooks; references must be pairwise distinct and carry the node's creation; plus one sequential history of 3 (40) million references, all distinct; plus seven executions in which 0..6 unlinks queued behind a held connection fail after drawing their ids, with references made before, between and after; plus two executions collecting every process identifier a node hands out (12 spawned processes interleaved with 12 remote calls whose reply-to identifiers are read off the wire; an unstarted node's creations)",
     })
 }
